@@ -124,7 +124,7 @@ fn outcome_key(reply: &Reply) -> String {
 pub fn drive(prop: &str, args: &[String]) -> i32 {
     let opts = parse_opts(args);
     let t0 = Instant::now();
-    println!("sim_fs {prop} format={} tier={} VERIF_SEED={} workers={}", corpus::FORMAT, opts.tier, opts.seed, opts.workers);
+    println!("sim_fs {prop} format={} tier={} VERIF_SEED={} workers={}", corpus::label(), opts.tier, opts.seed, opts.workers);
     let mut projects = dedup(corpus::load());
     if projects.is_empty() {
         simkit::harness_error("no corpus project in this format");
@@ -225,9 +225,9 @@ pub fn drive(prop: &str, args: &[String]) -> i32 {
             continue;
         }
         let _ = std::fs::create_dir_all(&opts.replay_dir);
-        let path = format!("{}/{}-{}-{}-{:016x}.json", opts.replay_dir, prop, corpus::FORMAT, opts.seed, simkit::fnv(class.as_bytes()));
+        let path = format!("{}/{}-{}-{}-{:016x}.json", opts.replay_dir, prop, corpus::label(), opts.seed, simkit::fnv(class.as_bytes()));
         let replay = json!({
-            "engine": "sim_fs", "format": corpus::FORMAT, "property": prop, "seed": opts.seed, "tier": opts.tier,
+            "engine": "sim_fs", "format": corpus::FORMAT, "binary": format!("sim_fs_{}", corpus::label()), "property": prop, "seed": opts.seed, "tier": opts.tier,
             "case": minimal, "original_case": cases[*idx],
             "expected": {"invariant": v2.invariant, "signature": v2.signature, "detail": v2.detail},
             "cases_in_class": class_counts[class],
@@ -243,7 +243,7 @@ pub fn drive(prop: &str, args: &[String]) -> i32 {
     let wall = t0.elapsed().as_secs_f64();
     if !opts.out.is_empty() {
         let part = json!({
-            "format": corpus::FORMAT, "property": prop, "tier": opts.tier, "seed": opts.seed,
+            "format": corpus::label(), "property": prop, "tier": opts.tier, "seed": opts.seed,
             "evaluations": cases.len(), "distinct_nontrivial": nontrivial_distinct.len(), "distinct_outcomes": outcomes.len(),
             "faults_fired": faults_fired, "probes": probes, "samples": samples, "violations": reported,
             "violation_classes": class_counts, "known_findings": known_reported, "wall_s": wall,
@@ -258,7 +258,7 @@ pub fn drive(prop: &str, args: &[String]) -> i32 {
     }
     println!(
         "sim_fs {prop} format={} done: {} cases, {} distinct non-trivial, {} violation classes reported, {} known, {:.1}s",
-        corpus::FORMAT,
+        corpus::label(),
         cases.len(),
         nontrivial_distinct.len(),
         reported,
@@ -284,7 +284,7 @@ fn write_digests(replies: &[Reply]) {
         };
         out.push_str(&format!("{i} {d}\n"));
     }
-    let _ = std::fs::write(format!("{path}.{}", corpus::FORMAT), out);
+    let _ = std::fs::write(format!("{path}.{}", corpus::label()), out);
 }
 
 fn fault_kinds(case: &Value) -> String {
@@ -431,7 +431,7 @@ pub fn replay(args: &[String]) -> i32 {
     };
     let text = std::fs::read_to_string(path).unwrap_or_else(|e| simkit::harness_error(&format!("cannot read {path}: {e}")));
     let rp: Value = serde_json::from_str(&text).unwrap_or_else(|e| simkit::harness_error(&format!("bad replay file: {e}")));
-    if rp["format"].as_str() != Some(corpus::FORMAT) {
+    if rp["format"].as_str() != Some(corpus::FORMAT) || rp["binary"].as_str().is_some_and(|b| b != format!("sim_fs_{}", corpus::label())) {
         simkit::harness_error(&format!("replay file is for format {}, this binary is {}", rp["format"], corpus::FORMAT));
     }
     let prop = rp["property"].as_str().unwrap_or("C09").to_string();
